@@ -27,6 +27,19 @@ RUSTFLAGS = f"--cfg {GUARD} --check-cfg cfg({GUARD}) -Awarnings"
 TARGET = os.path.join(WORK, "target")
 
 
+def prune_target(limit_gb=25):
+    """The shared cargo target directory holds the artefacts of every generated client crate (thousands of modules each): drop the
+    incremental state always and everything once it exceeds the limit (dependencies rebuild in about a minute)."""
+    shutil.rmtree(os.path.join(TARGET, "debug", "incremental"), ignore_errors=True)
+    try:
+        r = subprocess.run(["du", "-s", "-BG", TARGET], capture_output=True, text=True, timeout=120)
+        gb = int(r.stdout.split()[0].rstrip("G")) if r.returncode == 0 and r.stdout.split() else 0
+    except Exception:
+        gb = 0
+    if gb > limit_gb:
+        shutil.rmtree(TARGET, ignore_errors=True)
+
+
 class ToolError(Exception):
     pass
 
@@ -159,6 +172,7 @@ def cargo_env(dump=None, extra_rustflags=""):
     e = dict(os.environ)
     e["CARGO_NET_OFFLINE"] = "true"
     e["CARGO_TARGET_DIR"] = TARGET
+    e["CARGO_INCREMENTAL"] = "0"        # the generated client crates are rebuilt from scratch anyway; incremental state only fills the disk
     e["RUSTFLAGS"] = (RUSTFLAGS + " " + extra_rustflags).strip()
     e["CARGO_TERM_COLOR"] = "never"
     e.pop("RUSTC_WRAPPER", None)
@@ -375,6 +389,7 @@ class Check:
         self.work = os.path.join(WORK, pid)
         shutil.rmtree(self.work, ignore_errors=True)
         os.makedirs(self.work)
+        prune_target()
         self.cov = {"states": 0, "transitions": 0, "traces_validated_against_impl": 0, "samples": [],
                     "evaluations": 0, "distinct_nontrivial": 0, "rule": "", "exhaustive": False,
                     "drift": 0, "known_findings_hit": [], "tlc_runs": []}
